@@ -1,5 +1,5 @@
 (* C03 — A backup killed at any point leaves a consistent, usable archive. *)
-From CV Require Import Base.Str Apath Entry Store StitchProg Backup Read SafeP Inv RefIntP.
+From CV Require Import Base.Str Apath Entry Store StitchProg Backup Read SafeP Inv RefIntP FrameP.
 
 (* run_states enumerates the state after every operation and the state a kill leaves
    (Crash: before operation k; CrashEmpty: the file created, no content) — so "for every
@@ -34,3 +34,28 @@ Theorem C03_entries_with_integrity_restore :
       r_merr r = (merr + N.of_nat (length (filter (fun e : entry => kind_eqb (e_kind e) KUnknown) es)))%N.
 Proof. exact restore_entries_ok. Qed.
 Print Assumptions C03_entries_with_integrity_restore.
+
+(* Every previously completed version restores exactly as before, at every crash point:
+   same outcome, namely the files of its own index with the bytes its addresses name. *)
+Theorem C03_completed_versions_restore_as_before_at_every_crash_point :
+  forall (pre : bytes -> N) (c : cfg) (src : list sitem) (keep : entry -> bool) (a0 : arch) (b : N),
+    get a0 PHeader = Some (Good PlJson) -> has_dir a0 DBlocks = true -> WFidx a0 -> AInv a0 -> complete a0 b ->
+    forall (phi : list fault) (a : arch), In a (backup_states pre c src a0 phi) ->
+      snd (run pre (restore_prog (Specified b) keep) a []) = snd (run pre (restore_prog (Specified b) keep) a0 []) /\
+      (exists merr : N,
+          snd (run pre (restore_prog (Specified b) keep) a []) =
+          Store.Done {| r_ok := true; r_files := map restored (filter keep (band_entries a0 b)); r_merr := merr |}).
+Proof. exact complete_band_restore_stable. Qed.
+Print Assumptions C03_completed_versions_restore_as_before_at_every_crash_point.
+
+(* The interrupted version (once its header opens) is listed by the program exactly as the
+   pure stitching function of the archive view — whose equality with the documented rule
+   (own entries, then the previous version's after the last recorded path) is C08. *)
+Theorem C03_interrupted_version_lists_by_the_stitching_function :
+  forall (pre : bytes -> N) (keep : entry -> bool) (a : arch) (b : N),
+    get a PHeader = Some (Good PlJson) -> WFidx a -> head_opens a b = true ->
+    exists (tr : list (op * reply)) (merr : N),
+      run pre (list_prog (Specified b) keep) a [] =
+      (tr, a, Store.Done {| l_ok := true; l_entries := pstitch_keep keep (view a) (N.to_nat b); l_merr := merr |}).
+Proof. exact list_refines. Qed.
+Print Assumptions C03_interrupted_version_lists_by_the_stitching_function.
